@@ -3,7 +3,7 @@ CONSTANT Cfg <- MCCfg3x3
 CONSTANT Limits = {1, 2, 3}
 CONSTANT FoodPlacements <- Food3All
 CONSTANT AgentLevels <- LevelsAll
-CONSTANT TimedStarts <- StartAny
+CONSTANT TimedStarts <- StartEdge
 CONSTANT TimedFood <- Food3Sym
 CONSTRAINT Bounded
 VIEW View
